@@ -644,15 +644,32 @@ fn gen_input(rng: &mut Rng, max_items: usize, max_len: usize, eof_then_line: boo
                 }
                 flush_current_line(&mut script, &mut bytes);
                 last_char = false;
-                let n = rng.range_usize(1, 3);
-                for _ in 0..n {
-                    let l = gen_line_text(rng);
-                    bytes.extend(l);
-                    match rng.below(4) {
-                        0 => bytes.extend_from_slice(b"\r\n"),
-                        _ => bytes.push(b'\n'),
+                if rng.chance(1, 40) {
+                    // a long run of lines with one kind of line end, then the other kind (a reader that adapts to the
+                    // input after N lines of one style must still get the other style right)
+                    let run = *rng.pick(&[63usize, 64, 65, 100, 255, 256, 257]);
+                    let first_crlf = rng.chance(1, 3);
+                    for k in 0..run + 3 {
+                        let short: Vec<u8> = (0..rng.usize_below(4)).map(|_| b'a' + rng.below(26) as u8).collect();
+                        bytes.extend(short);
+                        if (k < run) == first_crlf {
+                            bytes.extend_from_slice(b"\r\n");
+                        } else {
+                            bytes.push(b'\n');
+                        }
+                        script.push(Item::Line);
                     }
-                    script.push(Item::Line);
+                } else {
+                    let n = rng.range_usize(1, 3);
+                    for _ in 0..n {
+                        let l = gen_line_text(rng);
+                        bytes.extend(l);
+                        match rng.below(4) {
+                            0 => bytes.extend_from_slice(b"\r\n"),
+                            _ => bytes.push(b'\n'),
+                        }
+                        script.push(Item::Line);
+                    }
                 }
                 token_open = false;
             }
